@@ -323,21 +323,38 @@ def align(ctx):
         n += 1
         where = U.handler_where(facts, D, code)
         shape = [s for s in hm.shapes(code) if s[0] == "mem"][0]
+        # the address term of the memory operand, from a plain run
         outs, I = hm.run(code, shape)
-        tests = False
+        addrs = set()
         for o in outs:
-            for c in o.path.conds:
-                t = c[0]
-                if t[0] == "bin" and t[1] in ("Eq", "Ne"):
-                    x = t[2]
-                    if x[0] == "bin" and x[1] == "BitAnd" and A.is_int(x[3]) and x[3][1] == 0xF and U.strip(x[2])[0] == "addr":
-                        tests = True
+            for e in o.path.events:
+                if e[0] in ("mem_read", "mem_write") and e[1] == 128:
+                    addrs.add(e[2])
         inst = "Code=%s" % code
-        if tests and any(o.kind == "return" and is_err(o) for o in outs):
-            ck.ok("C06.align", inst)
-        else:
-            ck.violation("C06.align", inst, "16-byte memory operand accessed without an alignment test", where=where,
+        if len(addrs) != 1:
+            ck.violation("C06.align", inst, "%d distinct 128-bit access addresses" % len(addrs), where=where)
+            continue
+        addr = list(addrs)[0]
+        inner = addr[1] if addr[0] == "w" else addr
+        bad = None
+        # per class of the address modulo 16: the low four bits are assumed, every test on them is decided
+        for r in range(16):
+            bits = [(r >> i) & 1 for i in range(4)] + [(inner, i, False) for i in range(4, 64)]
+            outs, I = hm.run(code, shape, assume={inner: bits})
+            ok_ = [o for o in outs if o.kind == "return" and not is_err(o) and
+                   any(e[0] in ("mem_read", "mem_write") and e[1] == 128 for e in o.path.events)]
+            err_ = [o for o in outs if o.kind == "return" and is_err(o)]
+            if r == 0 and not ok_:
+                bad = bad or "an aligned operand has no success path"
+            if r != 0 and ok_:
+                bad = bad or "address = %d (mod 16): the access succeeds, the CPU raises #GP" % r
+            if r != 0 and not err_ and not ok_:
+                bad = bad or "address = %d (mod 16): neither success nor error" % r
+        if bad:
+            ck.violation("C06.align", inst, bad, where=where,
                          what="a misaligned 128-bit operand of an alignment-checking instruction must fault")
+        else:
+            ck.ok("C06.align", inst, 16)
     ck.cov["aligned_sse_forms"] = n
 
 
